@@ -179,12 +179,13 @@ def generate(seed, tier, index, pid=ID, spec_p=None, p_overlap=0.06, script_p=No
         if j > 0 and rs.sub(j, "samekind").chance(0.4):
             kind = kinds[0]
         spec = same_dims_spec if (overlap and same_dims_spec is not None) else None
-        if spec is None and j > 0 and rs.sub(j, "sibq").chance(0.3):
+        if spec is None and j > 0 and rs.sub(j, "sibq").chance(0.3 if pid == ID else 0.6):
             # a sibling of script 0: same species and space, same number of reactions, other stoichiometry/constants
             from .. import gen
             # (the memory-safety profile also grows the network: buffers sized by an earlier, smaller set-up)
             spec = gen.sibling_spec(rs.sub(j, "sib"), scripts[0]["phys"]["spec"], spec_p,
-                                    nr_delta=(rs.sub(j, "sibd").randint(0, 3) if pid != ID else 0))
+                                    nr_delta=(rs.sub(j, "sibd").randint(1, 3) if pid != ID else 0))
+            kind = kinds[0] if rs.sub(j, "sibk").chance(0.8) else kind
         e = C.make_script_entry(rs.sub(j), ru.sub(j), rk.sub(j), kind, spec_p, script_p, rich=rs.chance(0.3), spec=spec)
         if overlap and same_dims_spec is None:
             same_dims_spec = e["phys"]["spec"]
